@@ -174,10 +174,37 @@ def run_dump_cell(cell, obj, fails):
     fn, fmt, target, mode = cell["fn"], cell["fmt"], cell.get("target"), cell.get("mode", "a")
     where = f"ml.{fn}({type(obj).__name__}, fmt={fmt!r}, target={target}, mode={mode}, fmtarg={cell.get('fmtarg')})"
     supported = fmt in ("xyz", "mol2")
-    exp = getattr(obj, "dumps_" + fmt)() if supported else None
+    kw = dict(KWS[cell.get("kw", 0)])
+    exp, exp_exc = None, None
+    if supported:
+        # the class-level codec with the same writer options decides: its text, or its refusal
+        try:
+            if fn == "dumps":
+                exp = getattr(obj, "dumps_" + fmt)(**kw)
+            else:
+                b_ = io.StringIO()
+                getattr(obj, "dump_" + fmt)(b_, **kw)
+                exp = b_.getvalue()
+        except TypeError as e:
+            exp_exc = e
+    if kw:
+        where += f" options={kw}"
+    if supported and exp_exc is not None:
+        # the class method does not know the option: the entry point must refuse it the same way, not drop it
+        try:
+            if fn == "dumps":
+                ml.dumps(obj, fmt, **kw)
+            else:
+                ml.dump(obj, io.StringIO(), fmt, **kw)
+            fails.append(Fail(f"writer-option-silently-dropped:{fn}", f"{where}: class method raises {exp_exc!r}, entry point accepted it"))
+        except TypeError:
+            pass
+        except Exception as e:
+            fails.append(Fail(f"raises:{fn}:{exc_sig(e) or type(e).__name__}", f"{where}: {e!r}"))
+        return "codec"
     if fn == "dumps":
         try:
-            got = ml.dumps(obj, fmt)
+            got = ml.dumps(obj, fmt, **kw)
             raised = None
         except Exception as e:
             got, raised = None, e
@@ -197,7 +224,7 @@ def run_dump_cell(cell, obj, fails):
             s = io.StringIO()
             s.write(prior)
             try:
-                ml.dump(obj, s, fmt, mode=mode)
+                ml.dump(obj, s, fmt, mode=mode, **kw)
                 raised = None
             except Exception as e:
                 raised = e
@@ -220,7 +247,7 @@ def run_dump_cell(cell, obj, fails):
         fds_before = len(os.listdir("/proc/self/fd"))
         args = (obj, p if target == "str" else Path(p)) + (() if cell["fmtarg"] == "suffix" else (fmt,))
         try:
-            ml.dump(*args, mode=mode)
+            ml.dump(*args, mode=mode, **kw)
             raised = None
         except Exception as e:
             raised = e
@@ -243,6 +270,11 @@ def run_dump_cell(cell, obj, fails):
         shutil.rmtree(d, ignore_errors=True)
 
 
+# writer options forwarded to the class-level writer (the number format option is called `fmt` there and collides with
+# the entry points' own `fmt` parameter, so it cannot be passed through them at all: not exercised)
+KWS = [{}, {"write_header": False}, {"write_header": True}, {"no_such_option": 1}]
+
+
 def load_cells():
     for fn in ("load", "load_all"):
         for fmt in FMTS:
@@ -263,8 +295,10 @@ def dump_cells():
         for target in ("str", "Path", "stream"):
             for mode in ("a", "w"):
                 for fmtarg in (("explicit", "suffix") if target != "stream" else ("explicit",)):
-                    yield {"fn": "dump", "fmt": fmt, "target": target, "mode": mode, "fmtarg": fmtarg}
-        yield {"fn": "dumps", "fmt": fmt}
+                    for kw in range(len(KWS)):
+                        yield {"fn": "dump", "fmt": fmt, "target": target, "mode": mode, "fmtarg": fmtarg, "kw": kw}
+        for kw in range(len(KWS)):
+            yield {"fn": "dumps", "fmt": fmt, "kw": kw}
 
 
 def check_matrix(recipe) -> list[Fail]:
